@@ -142,6 +142,15 @@ func c17Ops(c *h.Ctx) []c17Op {
 			req3[i] = st.Request().Marshal()
 		}
 	}
+	// well-formed requests for origins the issuer does not serve: refused after decryption, each with its own origin
+	var req3u [nPrep][]byte
+	for i := 0; i < nPrep; i++ {
+		cl := type3.NewRateLimitedClientFromSecret(detBytes("c3u", i, 48))
+		st, err := env0.request(cl, chal, detBytes("n3u", i, 32), detBytes("b3u", i, 48), fmt.Sprintf("unserved-%d.example", i))
+		if err == nil {
+			req3u[i] = st.Request().Marshal()
+		}
+	}
 	curve := elliptic.P384()
 	mkEC := func() any {
 		sk, _ := ecdsa.CreateKey(curve, detBytes("ecsk", 0, 48))
@@ -281,6 +290,17 @@ func c17Ops(c *h.Ctx) []c17Op {
 		}},
 		{"type3.Evaluate", mk3, func(s any, i int) []byte {
 			_, _, err := s.(*t3Shared).env.issuer.Evaluate(req3[k(i)])
+			return okErr(err)
+		}},
+		{"type3.Evaluate (refusals for unserved origins, mixed with served requests)", mk3, func(s any, i int) []byte {
+			in := req3u[k(i)]
+			if i%3 == 2 {
+				in = req3[k(i)]
+			}
+			_, _, err := s.(*t3Shared).env.issuer.Evaluate(in)
+			if err != nil {
+				return []byte(err.Error()) // the refusal names the origin of THIS request
+			}
 			return okErr(err)
 		}},
 		// a batch issuer whose list holds an issuer that REFUSES (same type and key id) before the one that serves
